@@ -1,6 +1,7 @@
 mod alpha;
 mod ast;
 mod c01;
+mod c03;
 mod interp;
 mod progen;
 mod c04;
@@ -20,7 +21,7 @@ use engine::*;
 
 fn checks() -> Vec<Box<dyn Check>>
 {
-	vec![Box::new(c01::C01), Box::new(c04::C04), Box::new(c05::C05), Box::new(c06::C06), Box::new(c14::C14), Box::new(c15::C15), Box::new(c19::C19)]
+	vec![Box::new(c01::C01), Box::new(c03::C03), Box::new(c04::C04), Box::new(c05::C05), Box::new(c06::C06), Box::new(c14::C14), Box::new(c15::C15), Box::new(c19::C19)]
 }
 
 fn main()
